@@ -407,10 +407,63 @@ func (e *Engine) loopModifiedMems(fr *Frame, li *loopInfo) []string {
 }
 
 func (e *Engine) loopTouchesGhost(li *loopInfo, g string) bool {
+	if strings.HasPrefix(g, "wire.") {
+		for b := range li.blocks {
+			for _, in := range b.Instrs {
+				if ci, ok := in.(ssa.CallInstruction); ok && e.callMaySend(ci.Common(), map[*ssa.Function]bool{}, 0) {
+					return true
+				}
+			}
+		}
+		return false
+	}
 	for b := range li.blocks {
 		for _, in := range b.Instrs {
 			switch in.(type) {
 			case *ssa.Call, *ssa.MakeSlice, *ssa.MakeMap, *ssa.MakeClosure, *ssa.Alloc, *ssa.MakeInterface, *ssa.Convert, *ssa.BinOp, *ssa.Go, *ssa.Send:
+				return true
+			}
+		}
+	}
+	return false
+}
+
+// callMaySend: the call may hand a frame to the connection (WriteTo), directly,
+// through a contract that declares vModifiesWire, or through inlined repository code.
+func (e *Engine) callMaySend(c *ssa.CallCommon, seen map[*ssa.Function]bool, depth int) bool {
+	if c.IsInvoke() {
+		return c.Method.Name() == "WriteTo"
+	}
+	callee := c.StaticCallee()
+	if callee == nil {
+		_, isBuiltin := c.Value.(*ssa.Builtin)
+		return !isBuiltin // unknown function value: conservative
+	}
+	if intrinsicNames[callee.Name()] || strings.HasPrefix(callee.Name(), "spec_") {
+		return false
+	}
+	if hn, ok := e.contracts[callee]; ok {
+		for _, b := range hn.Blocks {
+			for _, in := range b.Instrs {
+				if cc, ok := in.(*ssa.Call); ok {
+					if f := cc.Call.StaticCallee(); f != nil && f.Name() == "vModifiesWire" {
+						return true
+					}
+				}
+			}
+		}
+		return false
+	}
+	if callee.Blocks == nil || seen[callee] || depth > 8 {
+		return false
+	}
+	if callee.Pkg == nil || !strings.HasPrefix(callee.Pkg.Pkg.Path(), "github.com/irai/packet") {
+		return false // abstracted: no effect on modelled state
+	}
+	seen[callee] = true
+	for _, b := range callee.Blocks {
+		for _, in := range b.Instrs {
+			if ci, ok := in.(ssa.CallInstruction); ok && e.callMaySend(ci.Common(), seen, depth+1) {
 				return true
 			}
 		}
